@@ -91,12 +91,20 @@ pub fn exec(a: &[&str]) -> (String, String) {
                             }
                         }
                     };
-                    let oracle = match dec {
+                    let mut oracle = match dec {
                         Outcome::Ok(d) if d == data => "ok".to_string(),
                         Outcome::Ok(_) => "FAIL decoded bytes differ from the input".into(),
                         Outcome::Err(c) => format!("FAIL own reader rejects the stream (kind {c})"),
                         Outcome::Panic(_) => "FAIL own reader panics on the stream".into(),
                     };
+                    // C03: the reference implementation reads a .lzma file the crate wrote (lc + lp <= 4 is liblzma's own limit)
+                    if oracle == "ok" && variant <= 1 && preset.is_none() && o.lc + o.lp <= 4 {
+                        match crate::reflib::lzma_alone_decode(&stream) {
+                            Ok(d) if d == data => {}
+                            Ok(_) => oracle = "FAIL liblzma decodes the .lzma file the crate wrote to different bytes".into(),
+                            Err(e) => oracle = format!("FAIL liblzma rejects the .lzma file the crate wrote ({})", &e[..e.len().min(60)]),
+                        }
+                    }
                     (format!("OK {} ||| {}", hex(&stream), trace), oracle)
                 }
                 Outcome::Err(c) => (format!("ERR{c} ||| {trace}"), format!("FAIL writer error kind {c} for in-range options")),
@@ -116,12 +124,20 @@ pub fn exec(a: &[&str]) -> (String, String) {
             match enc {
                 Outcome::Ok(stream) => {
                     let dec = read_all(LZMA2Reader::new(&stream[..], o.dict, preset.as_deref()));
-                    let oracle = match dec {
+                    let mut oracle = match dec {
                         Outcome::Ok(d) if d == data => "ok".to_string(),
                         Outcome::Ok(_) => "FAIL decoded bytes differ from the input".into(),
                         Outcome::Err(c) => format!("FAIL own reader rejects the stream (kind {c})"),
                         Outcome::Panic(_) => "FAIL own reader panics on the stream".into(),
                     };
+                    // C03: the reference implementation reads the raw LZMA2 stream the crate wrote
+                    if preset.is_none() {
+                        match crate::reflib::lzma2_raw_decode(&stream, o.dict) {
+                            Ok(d) if d == data => {}
+                            Ok(_) => oracle = "FAIL liblzma decodes the LZMA2 stream the crate wrote to different bytes".into(),
+                            Err(e) => oracle = format!("FAIL liblzma rejects the LZMA2 stream the crate wrote ({})", &e[..e.len().min(60)]),
+                        }
+                    }
                     (format!("OK {} ||| {}", hex(&stream), trace), oracle)
                 }
                 Outcome::Err(c) => (format!("ERR{c} ||| {trace}"), format!("FAIL writer error kind {c} for in-range options")),
@@ -136,6 +152,18 @@ pub fn gen(rng: &mut Rng, tier: &str, dist: &mut Dist) -> Vec<String> {
     let n = if tier == "thorough" { 5000 } else { 500 };
     let max_len = if tier == "thorough" { 30000 } else { 4000 };
     let mut cmds = Vec::new();
+    // inputs longer than the 2 MiB uncompressed limit of one LZMA2 chunk: p incompressible bytes, then
+    // zeros, so that the symbols are 273-byte matches and the size of the first chunk before its last
+    // symbol is 2 MiB - 273 - r for a chosen residue r: p sweeps the residues around the limit
+    // (thorough: all 273), both encoder modes
+    let ps: Vec<usize> = if tier == "thorough" { (0..273).collect() } else { vec![236, 238, 239, 240, 242] };
+    for (i, p) in ps.iter().enumerate() {
+        let mut data: Vec<u8> = (0..*p).map(|_| 1 + rng.below(255) as u8).collect();
+        data.resize(*p + (2 << 20) + 70_000, 0);
+        let o = Opts { lc: 3, lp: 0, pb: 2, dict: 1 << 20, nice: 64, mode: (i % 2) as u32, mf: 0, depth: 0 };
+        dist.bump("lzma2.chunk_limit_2mib");
+        cmds.push(format!("lzma2enc {} 0 none {} .", o.to_string(), hex(&data)));
+    }
     for i in 0..n {
         let class = if i < DATA_CLASSES.len() { DATA_CLASSES[i] } else { *rng.pick(DATA_CLASSES) };
         let data = gen_data(rng, class, max_len);
